@@ -58,9 +58,8 @@ Proof.
   rewrite Hk, orb_false_r in H. exact H.
 Qed.
 
-(* the generic statement behind C20f_interfaces_match *)
-Lemma interfaces_match : forall t i, abi_table_ok t = true -> In (AIface i) t -> arow_known (AIface i) = false ->
-  a_variadic i = false ->
+(* what iface_ok means for a non-variadic interface body *)
+Definition iface_matches (i : iface) : Prop :=
   let cn := non_hidden (a_cptys i) in
   List.length (a_fargs i) = List.length cn /\
   (a_bindc i = false -> n_fchar (a_fargs i) = n_hidden (a_cptys i)) /\
@@ -71,9 +70,11 @@ Lemma interfaces_match : forall t i, abi_table_ok t = true -> In (AIface i) t ->
      (f = FChar -> v = false /\ ((c = TFStr /\ a_bindc i = false) \/ (c = TStr /\ a_bindc i = true) \/ c = TVoidP)) /\
      (c = TSizeP -> (f = FSize /\ v = false) \/ (f = FCPtr /\ v = true)) /\
      (c = TFIntP -> f = FInt /\ v = false)).
+
+Lemma iface_ok_matches : forall i, iface_ok i = true -> a_variadic i = false -> iface_matches i.
 Proof.
-  intros t i Ht Hin Hk Hv cn.
-  pose proof (table_row t _ Ht Hin Hk) as Hok. simpl in Hok. unfold iface_ok in Hok. rewrite Hv in Hok.
+  intros i Hok Hv. unfold iface_matches. set (cn := non_hidden (a_cptys i)).
+  unfold iface_ok in Hok. rewrite Hv in Hok.
   apply andb_true_iff in Hok. destruct Hok as [Hok _]. apply andb_true_iff in Hok. destruct Hok as [Ha Hh].
   fold cn in Ha.
   split; [now apply (args_abi_length (a_bindc i))|].
@@ -85,6 +86,23 @@ Proof.
   split; [intros ->; now apply compat_char in Hcomp|].
   split; [intros ->; now apply compat_sizep in Hcomp|].
   intros ->; now apply compat_fintp in Hcomp.
+Qed.
+
+(* the generic statement behind C20f_interfaces_match *)
+Lemma interfaces_match : forall t i, abi_table_ok t = true -> In (AIface i) t -> arow_known (AIface i) = false ->
+  a_variadic i = false -> iface_matches i.
+Proof.
+  intros t i Ht Hin Hk Hv. pose proof (table_row t _ Ht Hin Hk) as Hok. simpl in Hok. now apply iface_ok_matches.
+Qed.
+
+(* ... and behind C20f_documented_kinds_match: a wrapper that is only DOCUMENTED (commented-out interface body) takes, position
+   by position, what the documentation says a caller passes -- in particular cgsize_t* where it says INTEGER(cgsize_t) *)
+Lemma documented_match : forall t i, abi_table_ok t = true -> In (ADoc i) t -> arow_known (ADoc i) = false ->
+  iface_matches i /\ a_bindc i = false.
+Proof.
+  intros t i Ht Hin Hk. pose proof (table_row t _ Ht Hin Hk) as Hok. simpl in Hok.
+  apply andb_true_iff in Hok. destruct Hok as [Hok Hv]. apply andb_true_iff in Hok. destruct Hok as [Hok Hb].
+  apply negb_true_iff in Hv, Hb. split; [now apply iface_ok_matches | exact Hb].
 Qed.
 
 (* a wrapper without an interface body is reachable from gfortran only if its symbol is name_ *)
